@@ -1,4 +1,5 @@
 """E5 core: expression recovery from MIR (single-reaching-definition inlining) and linear normal forms."""
+import re
 import struct
 from fractions import Fraction
 from .db import short
@@ -55,7 +56,12 @@ class Rec:
         cb = getattr(self, 'ctx_block', None)
         if len(d) > 1 and cb is not None and not (1 <= l <= self.fn.arg_count) and l not in self.fn.borrowed_mut and not self.fn.partial.get(l) \
                 and (self.fn.local_ty(l) == 'bool' or not self.fn.local_name(l)):      # condition variables and compiler temporaries: named user variables keep one spelling everywhere
-            live = [x for x in d if x[0] == cb or self.fn.reaches(x[0], cb)]
+            # reaching definitions: a definition reaches the use if some path gets there without passing another definition of the local
+            own = [x for x in d if x[0] == cb]
+            if own:
+                live = [own[-1]]          # a definition inside the block of the use (before its terminator) kills every other one
+            else:
+                live = [x for x in d if self.fn.reaches(x[0], cb, avoid={y[0] for y in d if y[0] != x[0]})]
             if len(live) == 1:
                 # the surviving definition must also dominate the use (it is then the value on every path into the block)
                 if live[0][0] == cb or self.fn.dominates(live[0][0], cb):
@@ -256,6 +262,14 @@ def stores(fn, rec=None):
 
 
 def short_const(p):
+    """Name of an unevaluated constant.  Associated constants of a trait (`<T as Unsigned>::USIZE`) keep their Self type as a prefix
+    `<T>::`: `A::K::USIZE`, `C::USIZE` and `C::Quotient::USIZE` are different quantities and must not compare equal."""
+    mm = re.match(r'^<(.*) as ([\w:]+)>::(\w+)$', p.strip())
+    if mm:
+        self_ty = mm.group(1)
+        self_ty = re.sub(r'\b(?:typenum::(?:uint|bit|marker_traits)::|crate::|lightmotif::)', '', self_ty)
+        self_ty = re.sub(r'UInt<UInt<UInt<UInt<UInt<UTerm, B1>, B0>, B0>, B0>, B0>', 'U16', self_ty)
+        return f'<{self_ty}>::{mm.group(2)}::{mm.group(3)}'
     return short(p)
 
 
